@@ -2,6 +2,6 @@ CONSTANTS MaxBlocks = 3  SimDepth = 99
 INIT Init
 NEXT NextCover
 VIEW view
-INVARIANTS C17_Design C18_Design C19_Design C20_Design C21_Design C22_Design C24_Design C25_Design C28_Design C32_Design C36_Design C37_Design All_Design
+INVARIANTS C17_Design C18_Design C19_Design C20_Design C21_Design C22_Design C24_Design C25_Design C28_Design C32_Design C36_Design C37_Design Params_Design All_Design
 PROPERTIES C14_C15_Design C22_Updates_Design C17_SupplyMoves_Design
 CHECK_DEADLOCK FALSE
